@@ -92,6 +92,16 @@ inline H3Index cellAt(LatLng g, int res) {
 // slightly off (a radius, a threshold) shows up at a distance that has nothing to do with the cell size
 inline double logU(double lo, double hi) { return lo * std::pow(hi / lo, runit()); }
 
+// direction from a special point: anywhere, or at any angular scale from a cardinal direction (due north/south/east/west are where
+// lat/lng formulas — atan2, acos of a cosine near +-1 — lose precision) or from a multiple of 30 degrees (hexagon axes)
+inline double specialAzimuth() {
+    switch (rpick({3, 3, 1})) {
+        case 0: return runit() * 2 * PI;
+        case 1: return ri(0, 3) * PI / 2 + (ri(0, 1) ? 1 : -1) * logU(1e-13, 0.5);
+        default: return ri(0, 11) * PI / 6 + (ri(0, 1) ? 1 : -1) * logU(1e-13, 0.2);
+    }
+}
+
 // ---- arms
 inline H3Index cellUniformIndex(int res) {
     int d[16] = {0};
@@ -131,7 +141,7 @@ inline H3Index cellPentDisk(int res, int kmax) {
     if (rpick({4, 1})) {  // any scale from the pentagon (distortion persists along the five icosahedron edges that meet there)
         LatLng c;
         cellToLatLng(p, &c);
-        H3Index h = cellAt(offset(c, logU(cellWidth(res), 0.35), runit() * 2 * PI), res);
+        H3Index h = cellAt(offset(c, logU(cellWidth(res), 0.35), specialAzimuth()), res);
         return h ? h : p;
     }
     int k = ri(0, kmax);
@@ -175,7 +185,7 @@ inline LatLng pointFaceCentre(int res) {  // one of the 20 icosahedron face cent
         case 1: off = runit() * 4.0 * cellWidth(res); break;
         default: off = logU(0.1 * cellWidth(res), 0.6); break;
     }
-    return offset(p, off, runit() * 2 * PI);
+    return offset(p, off, specialAzimuth());
 }
 inline LatLng pointUniform() { return {std::asin(2 * runit() - 1), (2 * runit() - 1) * PI}; }
 inline LatLng pointPolar(int res) {
